@@ -106,7 +106,7 @@ class Types:
         rng = self.int_range(tid)
         if rng is not None:
             lo, hi = rng
-            s = eng.fresh(p, name, lo, hi)
+            s = eng.fresh_input(p, name, lo, hi)
             if nonzero:
                 p.cons.append(_assume(s != 0))
             if lo < 0:
@@ -126,7 +126,7 @@ class Types:
         if g in ("Uninitialized", "Coupon"):
             return [], ("struct", []), ("none",)
         if g == "EcPoint":
-            x, y = eng.fresh(p, name + "_x"), eng.fresh(p, name + "_y")
+            x, y = eng.fresh_input(p, name + "_x"), eng.fresh_input(p, name + "_y")
             return [x, y], ("struct", [("int", x), ("int", y)]), ("cells", [x, y])
         if g == "NonZero":
             inner = self.targ(tid, 0)
@@ -154,13 +154,13 @@ class Types:
             if shape[0] == "enumsym":
                 if len(vs) == 0:
                     raise Unsupported("input of empty enum")
-                sel = eng.fresh(p, name + "_sel", min(sels), max(sels))
+                sel = eng.fresh_input(p, name + "_sel", min(sels), max(sels))
                 p.cons.append(_assume(z3.Or(*[sel == s for s in sels])))
                 return [sel], ("enum", None, sel, {i: ("struct", []) for i in range(len(vs))},
                               sels), ("felt", sel)
             _, i, s = shape
             c, v, sp = self.build(eng, p, vs[i], s, f"{name}_v{i}")
-            pad = [eng.fresh(p, f"{name}_pad") for _ in range(size - 1 - len(c))]
+            pad = [eng.fresh_input(p, f"{name}_pad{j}") for j in range(size - 1 - len(c))]
             cells = [sels[i]] + pad + c
             return cells, ("enum", i, sels[i], {i: v}, sels), ("seq", [("felt", sels[i])] +
                                                           [("felt", x) for x in pad] + [sp])
